@@ -29,7 +29,8 @@ type Opt struct {
 	PkgPath   string
 	AfterOp   func()
 	NoSkipConstant bool
-	NoRef          bool // skip the reference side entirely (resource measurements: builder + printer only)
+	NoRef          bool // skip the reference side entirely (resource measurements)
+	NoWrite        bool // with NoRef: do not print either (go/printer is quadratic in nesting depth by itself)
 }
 
 type Diff struct {
@@ -279,6 +280,9 @@ func Build(u *ref.Universe, srcs []string, opt Opt) *Outcome {
 		o.foldedBad(c)
 	}
 	// output
+	if opt.NoRef && opt.NoWrite {
+		return o
+	}
 	if opt.NoRef {
 		o.Files = map[string]string{}
 		pkg.ForEachFile(func(fname string, _ *gogen.File) { o.FileOrder = append(o.FileOrder, fname) })
